@@ -666,29 +666,43 @@ class C15(Check):
             return ("rbe-raises-" + EXC_NAMES.get(rec[0], "other"),
                     f"RemoteBitrateEstimator.add raised at arrival {len(outs)}: {arrivals[len(outs)]}")
         calls_rec, per_call = rec[1], rec[2]
-        # 1. window exactness of the measured incoming bitrate, recomputed naively from the history
+        # 1. window exactness of the measured incoming bitrate, recomputed naively from the whole history:
+        #    the value handed to the rate controller is round(8000 * bytes of the packets with t-1000 < ts <= t /
+        #    active) where the active window [origin, t] (2..1000 ms) starts no later than the oldest packet of the
+        #    window and no earlier than the first packet of the history; None only if all of them arrived in this ms
         samples = []
-        first = None
         seen = []
         calls = []
         verdicts = []
+        t_first = arrivals[0][0] if arrivals else 0
+        last_active, last_t = 1, t_first
         for i, ((t, send, size, ssrc), o, (verdict, ci)) in enumerate(zip(arrivals, outs, per_call)):
             if ssrc not in seen:
                 seen.append(ssrc)
-            win = [v for (ts, v) in samples if t - 1000 < ts]
-            if not win:
-                samples = []
-                first = t                 # empty window: the counter restarts here
             samples.append((t, size))
             if ci >= 0:
                 c = calls_rec[ci]
-                win = [v for (ts, v) in samples if t - 1000 < ts]
-                active = t - max(first, t - 999) + 1
-                want = round_half_even(8000 * sum(win), active) if active > 1 else None
+                while samples and samples[0][0] <= t - 1000:
+                    samples.pop(0)
+                total = sum(v for (ts, v) in samples)
+                oldest = samples[0][0]
                 got = None if c[6] < 0 else c[6]
-                if got != want:
+                lo = max(2, t - oldest + 1)
+                hi = min(1000, t - t_first + 1)
+                if got is None:
+                    ok = oldest == t
+                else:
+                    cands = [a for a in (last_active + (t - last_t), last_active, hi, 1000, lo) if lo <= a <= hi]
+                    hit = [a for a in cands if round_half_even(8000 * total, a) == got]
+                    if not hit:
+                        hit = [a for a in range(lo, hi + 1) if round_half_even(8000 * total, a) == got]
+                    ok = bool(hit)
+                    if ok:
+                        last_active, last_t = hit[0], t
+                if not ok:
                     return ("window-inexact", f"arrival {i} (t={t}): incoming bitrate handed to the rate controller is "
-                                              f"{got}, the packets of the last 1000 ms give {want}")
+                                              f"{got}; the {len(samples)} packets of the last 1000 ms carry {total} "
+                                              f"bytes (active window {lo}..{hi} ms)")
                 calls.append(list(c) + [o[1] if len(o) > 1 else None])
                 verdicts.append(verdict)
             elif len(o) > 1:
